@@ -681,3 +681,7 @@ package bt
 // modified; for FORKID types C02 proves it equal to SHA256d of the BIP143 preimage)
 //@ func bt.(*Tx).CalcInputSignatureHash
 //@   define (=> (= err nil) (= (bytes r0) (digest_of tx inputNumber sigHashFlag)))
+
+// ---- C16: the hex shortcut of Tx.UnmarshalJSON installs every field of the parsed transaction ----
+//@ func bt.(*Tx).UnmarshalJSON
+//@   lemma (=> (= err nil) (and (= (. tx LockTime) (. t LockTime)) (= (. tx Version) (. t Version)) (= (. tx Inputs) (. t Inputs)) (= (. tx Outputs) (. t Outputs))))
